@@ -38,6 +38,7 @@ type Profile struct {
 	AllowNoSweep bool
 	Lifecycle    bool // bias towards crash / silence / expiry steps
 	TinyPackets  bool // allow packet sizes down to the minimum viable
+	LongVals     int  // chance (out of 10) that an upsert writes a long value (default 2)
 }
 
 var baseWeights = map[string]int{
@@ -445,6 +446,13 @@ func New(c *vlib.Case, p *Profile) *Sim {
 	return s
 }
 
+// NewN builds a cluster of exactly n nodes (packet sizes drawn).
+func NewN(c *vlib.Case, p *Profile, n int) *Sim {
+	s := &Sim{c: c, p: p, byAddr: map[string]*Node{}, blocked: map[[2]int]bool{}}
+	s.build(n, nil)
+	return s
+}
+
 // NewFixed builds a cluster for a hand-written scenario: no draws are made
 // (digests keep the sorted order, deliveries advance the clock by 1us).
 func NewFixed(c *vlib.Case, p *Profile, packetSizes []int) *Sim {
@@ -636,7 +644,11 @@ func filter(ns []*Node, f func(*Node) bool) []*Node {
 
 func (s *Sim) drawKey() string { return simKeys[s.c.Pick("key", len(simKeys))] }
 func (s *Sim) drawVal() string {
-	if s.c.Chance("longVal", 1, 5) {
+	num := s.p.LongVals
+	if num == 0 {
+		num = 2
+	}
+	if s.c.Chance("longVal", num, 10) {
 		return vlib.Draw(s.c, genVal, "val")
 	}
 	return s.c.OneOf("val", "", "1", "2", "x", "värde")
@@ -1562,3 +1574,5 @@ func (s *Sim) liveConnected() bool {
 	}
 	return len(seen) == len(live)
 }
+
+func gossipMeta(n *Node) gossip.NodeMetadata { return gossip.NodeMetadata{ID: n.id, Addr: n.addr} }
